@@ -36,13 +36,15 @@ def parse(paths):
             if loc and loc[0] == 'heap': key = ('heap', first_lib_frame(loc[3]), loc[1], addr - loc[2], size)
             elif loc: key = loc
             else: key = ('noloc', tuple(sorted(first_lib_frame(a[3]) for a in acc)))
-            recs.append({'kind': kind, 'key': key, 'pair': tuple(sorted(first_lib_frame(a[3]) for a in acc[:2])), 'in_lib': any('src/lib/' in s for a in acc for _, s in a[3])})
+            recs.append({'kind': kind, 'key': key, 'pair': tuple(sorted(first_lib_frame(a[3]) for a in acc[:2])), 'in_lib': any('src/lib/' in s for a in acc for _, s in a[3][:3]), 'text': rep[:3500]})
     return recs
 def summarize(recs):
     c = collections.OrderedDict()
     for r in recs:
-        e = c.setdefault(r['key'], {'n': 0, 'pairs': set(), 'kind': r['kind']}); e['n'] += 1; e['pairs'].add(r.get('pair'))
+        e = c.setdefault(r['key'], {'n': 0, 'pairs': set(), 'kind': r['kind'], 'in_lib': False, 'text': r.get('text', '')}); e['n'] += 1; e['pairs'].add(r.get('pair')); e['in_lib'] = e['in_lib'] or r.get('in_lib', False)
     return c
+def keystr(k): return '/'.join(str(x) for x in k) if isinstance(k, tuple) else str(k)
+def in_library(k, v): return bool(v.get('in_lib'))
 if __name__ == '__main__':
     import sys
     for k, v in summarize(parse(sys.argv[1:])).items(): print(v['n'], v['kind'], k, sorted(v['pairs'])[:3])
